@@ -92,6 +92,8 @@ def remote_cfg_inv(rc):
     """valid remote configuration: limits >= 1, id widths of a CFDP entity id"""
     return z3.And(
         rc.positive_ack_timer_expiration_limit >= 1, rc.nak_timer_expiration_limit >= 1, rc.check_limit >= 1,
+        # F11 (degenerate configurations) excluded: every fixed-size PDU and a NAK with one segment request fit
+        rc.max_packet_len >= 64,
         z3.Or(*[rc.entity_id.byte_len == k for k in (1, 2, 4, 8)]), rc.entity_id.value >= 0,
     )
 
